@@ -4,7 +4,7 @@
 (*     <<L(n, seed) | R(off, len)>>*  [pad to a total size]                                *)
 (* over boundary parameters, times codec configuration, times destination capacity.       *)
 (* BFS gives the full product for the given constants; `-simulate` samples longer lists.   *)
-EXTENDS Codec, TLC, Json
+EXTENDS CodecDesc, TLC, Json
 CONSTANTS LitLens,    \* literal run lengths
           RepOffs,    \* repeat offsets
           RepLens,    \* repeat lengths
